@@ -24,6 +24,9 @@ for meta in sorted(glob.glob(os.path.join(VERIF, "seeded", "*", "meta.json"))):
         if d["prop"] == prop:
             entries.append({"prop": prop, "patch": os.path.join(os.path.dirname(meta), "patch.diff"), "expect": d["expect"], "seed": m["id"]})
 
+for b in sorted(glob.glob(os.path.join(VERIF, "benign", "*", "patch.diff"))):
+    entries.append({"prop": prop, "patch": b, "benign": os.path.basename(os.path.dirname(b))})
+
 results = []
 for e in entries:
     tmp = tempfile.mkdtemp(prefix="dtnlint_selftest_")
@@ -37,6 +40,10 @@ for e in entries:
                 results.append({"mutant": name, "expect": e["expect"], "status": "skipped", "why": "commit not found"})
                 continue
             ap = subprocess.run(["patch", "-R", "-p1", "-s", "-f", "-d", work], input=diff.stdout, capture_output=True, text=True)
+        elif "benign" in e:
+            name = "benign:" + e["benign"]
+            e["expect"] = "(no violation)"
+            ap = subprocess.run(["patch", "-p1", "-s", "-f", "-d", work], input=open(e["patch"]).read(), capture_output=True, text=True)
         else:
             name = "seeded:" + e["seed"]
             ap = subprocess.run(["patch", "-p1", "-s", "-f", "-d", work], input=open(e["patch"]).read(), capture_output=True, text=True)
@@ -48,6 +55,10 @@ for e in entries:
             results.append({"mutant": name, "expect": e["expect"], "status": "skipped", "why": "mutant does not compile on the current tree"})
             continue
         out = subprocess.run([os.path.join(VERIF, "bin", "dtnlint"), "-prop", prop, "-repo", work, "-no-evidence"], env=env, capture_output=True, text=True)
+        if "benign" in e:
+            alarms = [l for l in out.stdout.splitlines() if l.startswith("violated")]
+            results.append({"mutant": name, "expect": e["expect"], "status": "quiet" if out.returncode != 1 and not alarms else "FALSE-ALARM", "checker_exit": out.returncode, "alarms": alarms[:3]})
+            continue
         hit = any(l.startswith("violated") and e["expect"] in l for l in out.stdout.splitlines())
         results.append({"mutant": name, "expect": e["expect"], "status": "killed" if hit else "MISSED", "checker_exit": out.returncode})
     finally:
